@@ -523,6 +523,99 @@ func c10Handles(g *rand.Rand, res *ev.Result, trunk string, tag string) {
 		}
 		res.Seen(fmt.Sprintf("handles|stale-close%d|%s", v, trunk))
 	}
+	// (f) a dial function that is kept and used again after its connection was closed gives a working connection
+	{
+		id := multiplex.ConnID(4500)
+		ca, _ := ma.Open(id)
+		dial := mb.Dialer(id)
+		var seq uint32
+		for round := 0; round < 3; round++ {
+			cb, err := dial("", "")
+			if err != nil || cb == nil {
+				viol("open-error", fmt.Sprintf("dial %d through a kept dial function: %v", round+1, err))
+				return
+			}
+			if err := sendN(ca, uint32(id), seq, 3); err != nil {
+				viol("write-error", err.Error())
+				return
+			}
+			if r := recvN(cb, uint32(id), seq, 3, 5*time.Second); r != "" {
+				viol("redial-lost-stream", fmt.Sprintf("connection id %d dialled for the %d. time through the same dial function (closed in between): %s", id, round+1, r))
+				return
+			}
+			seq += 3
+			cb.Close()
+		}
+		res.Seen("handles|redial|" + trunk)
+	}
+	// (g) both ends write more than the trunk buffers hold while both ends open and close other connections:
+	// the streams still complete
+	if trunk == "socket" {
+		a3, b3, err := trunkPair(trunk)
+		if err != nil {
+			return
+		}
+		m1 := multiplex.Multiplex(a3)
+		m2 := multiplex.Multiplex(b3)
+		c1, _ := m1.Open(5100)
+		c2, _ := m2.Open(5100)
+		const nmsg, size = 24, 96 << 10 // ~2.3 MB each way, far beyond the socket buffers
+		stop := make(chan struct{})
+		var churn sync.WaitGroup
+		for _, m := range []multiplex.Mux{m1, m2} {
+			churn.Add(1)
+			go func(m multiplex.Mux) {
+				defer churn.Done()
+				for i := 0; ; i++ {
+					select {
+					case <-stop:
+						return
+					default:
+					}
+					if c, err := m.Open(multiplex.ConnID(5200 + i%7)); err == nil {
+						c.Close()
+					}
+				}
+			}(m)
+		}
+		errs := make(chan string, 4)
+		for _, p := range [][2]net.Conn{{c1, c2}, {c2, c1}} {
+			w, rd := p[0], p[1]
+			go func() {
+				for i := 0; i < nmsg; i++ {
+					if _, err := w.Write(buildMsg(5100, 0, uint32(i), size)); err != nil {
+						errs <- "write: " + err.Error()
+						return
+					}
+				}
+				errs <- ""
+			}()
+			go func() { errs <- recvN(rd, 5100, 0, nmsg, 40*time.Second) }()
+		}
+		bad := ""
+		for i := 0; i < 4; i++ {
+			select {
+			case e := <-errs:
+				if e != "" && bad == "" {
+					bad = e
+				}
+			case <-time.After(60 * time.Second):
+				if bad == "" {
+					bad = "writers or readers still blocked after 60 s; goroutines:\n" + nriStacks()
+				}
+				i = 4
+			}
+		}
+		close(stop)
+		m1.Close()
+		m2.Close()
+		churn.Wait()
+		if bad != "" {
+			viol("stalled", fmt.Sprintf("%d x %d bytes in each direction while both ends open and close other connections: %s", nmsg, size, bad))
+			return
+		}
+		res.Seen("handles|traffic-with-churn")
+	}
 	// (e) a receiver that reads late but stays within its configured queue length loses nothing, whatever
 	// that length is
 	for _, ql := range []int{1, 3, 300, 1000} {
